@@ -224,6 +224,15 @@ func (e *Exec) check(st *State, fr *Frame, class string, instr ssa.Instruction, 
 			tags = e.safeTags
 		}
 	}
+	if onlyProp != "" && !hasTag(tags, onlyProp) && class != "VACUITY" && class != "UNWIND" && class != "BUDGET" {
+		// this run decides the obligations tagged with its own property; the others
+		// are proved by the runs of their properties and are assumptions here
+		if !e.noAssume {
+			e.ensureDecls(goal)
+			e.assume(goal)
+		}
+		return true
+	}
 	if len(onlyClasses) > 0 && !classSelected(class) {
 		// this run decides other obligation classes only (GOVC_CLASSES): the goal is
 		// taken as an assumption here and proved by the run of its own property
@@ -1404,6 +1413,9 @@ func (e *Exec) stepUnwind(st *State, fr *Frame) bool {
 
 // onlyClasses: obligation class prefixes to prove in this process (empty: all)
 var onlyClasses []string
+
+// onlyProp: the property whose obligations this process proves (GOVC_PROP; empty: all)
+var onlyProp string
 
 func classSelected(class string) bool {
 	if class == "VACUITY" || class == "UNWIND" || class == "BUDGET" {
